@@ -62,6 +62,11 @@ def marker_lines(kind, tag, lang):
     if kind == 'regex':
         return '// NOFMT-BEGIN-7 %s' % tag, '// NOFMT-END-7 %s' % tag, {'processing_cmt_as_regex': 'true', 'disable_processing_cmt': '" NOFMT-BEGIN-[0-9]"',
                                                                     'enable_processing_cmt': '" NOFMT-END-[0-9]"'}
+    if kind == 'regex_default':        # regex mode, built-in marker texts (they must keep working as plain text)
+        return '/* *INDENT-OFF* %s */' % tag, '// *INDENT-ON* %s' % tag, {'processing_cmt_as_regex': 'true'}
+    if kind == 'regex_custom_off':     # regex mode, custom disable pattern that also accepts the classic text, default enable marker
+        return '// *INDENT-OFF* %s' % tag, '/* *INDENT-ON* %s */' % tag, {'processing_cmt_as_regex': 'true',
+                                                                         'disable_processing_cmt': '" (NOFMT-BEGIN|\\*INDENT-OFF\\*)"'}
     if kind == 'pragma_asm':
         return '#pragma asm', '#pragma endasm', {}
     return '#asm', '#endasm', {}
@@ -69,7 +74,7 @@ def marker_lines(kind, tag, lang):
 
 def forbid(content, kind):
     bad = {'block': [b'INDENT-ON'], 'line': [b'INDENT-ON'], 'custom': [b'fmt:on'], 'regex': [b'NOFMT-END'], 'pragma_asm': [b'endasm'],
-           'hash_asm': [b'endasm']}[kind]
+           'hash_asm': [b'endasm'], 'regex_default': [b'INDENT-O'], 'regex_custom_off': [b'INDENT-O', b'NOFMT']}[kind]
     return [ln for ln in content if not any(b in ln for b in bad)]
 
 
@@ -216,10 +221,11 @@ def draw_cfg(rng, density, lang):
 def mk_case(base_lines, positions, lang, rng, origin, cfg_density):
     nreg = len(positions)
     # one marker family per case: configuring custom / regex markers replaces the default ones for the whole file
-    fam = rng.choice(['default', 'default', 'custom', 'regex', 'asm'])
+    fam = rng.choice(['default', 'default', 'custom', 'regex', 'asm', 'regex_default', 'regex_custom_off'])
     if fam == 'asm' and (nreg > 1 or lang not in ('C', 'CPP')):
         fam = 'default'
-    kinds = [{'default': rng.choice(['block', 'line']), 'custom': 'custom', 'regex': 'regex', 'asm': rng.choice(['pragma_asm', 'hash_asm'])}[fam]
+    kinds = [{'default': rng.choice(['block', 'line']), 'custom': 'custom', 'regex': 'regex', 'asm': rng.choice(['pragma_asm', 'hash_asm']),
+              'regex_default': 'regex_default', 'regex_custom_off': 'regex_custom_off'}[fam]
              for _ in range(nreg)]
     cfgd = draw_cfg(rng, cfg_density, lang)
     regions, alts = [], []
